@@ -12,15 +12,33 @@
 (* code's own nondeterminism: it is recorded in the trace and judged by Trace_BlockRelay_C11.     *)
 (* nk is the kind of the next step, chosen one step ahead so that TLC's uniform choice among      *)
 (* successor states is uniform over the kinds and not over their (many) parameters.               *)
+(*                                                                                                *)
+(* Histories on ONE instance.  Every scenario is run on one service instance, step after step, so  *)
+(* whatever a step leaves behind on the instance meets the following steps.  Two scripted families  *)
+(* make that systematic:                                                                           *)
+(*   Script = "after"   Fetch(k) ; Round(every combination of failing signing request / relays /    *)
+(*                      nodes, every latency script) ; Round(no failure) ; Fwd ; Round(no failure):  *)
+(*                      the rounds AFTER a round with failures must complete and deliver like any    *)
+(*                      other (FailureIsolated / RegistrationExact / ForwardedAll; RoundReturns)     *)
+(*   Script = "window"  the overlap: Fetch(k) ; Round(lat = "held": the healthy relays keep the       *)
+(*                      round's calls in flight) ; inside that window a REST forwarding call         *)
+(*                      (Fwd2 = the second lane F2.. of BlockRelay) and a fetch of another document,   *)
+(*                      in either order, run to completion ; Release ; Round.  If the nested call     *)
+(*                      cannot finish while the round is held (a design that lets only one            *)
+(*                      submission per relay run at a time) the driver lets the round go first.       *)
+(* In the simulated histories a round with lat = "held" opens such a window for the next one or two    *)
+(* steps (win).                                                                                     *)
 EXTENDS BlockRelay, Json
 
 CONSTANTS ScenLen,      \* steps per scenario
           MaxSignFail,  \* failing signing requests per round
           Matrix,       \* TRUE: the scenarios are "fetch a document ; one round with every failure combination"
-          History       \* TRUE: the scenarios are "(fetch a document ; round of all accounts) x ScenLen/2", every sequence
+          History,      \* TRUE: the scenarios are "(fetch a document ; round of all accounts) x ScenLen/2", every sequence
+          Script        \* "none" | "after" | "window" (see above)
 
-VARIABLES hist, nk
-svars == <<vars, hist, nk>>
+VARIABLES hist, nk,
+          win           \* 0: no window; n > 0: inside the window of a held round, n nested steps to go; -1: Release is due
+svars == <<vars, hist, nk, win>>
 
 DocJson(k) == LET d == Catalogue(k) IN
     [id |-> k, bad |-> d.bad,
@@ -33,6 +51,7 @@ SInit ==
     /\ Init
     /\ hist = <<[ev |-> "Reset", docs |-> {DocJson(k) : k \in DocIds}]>>
     /\ nk = 1
+    /\ win = 0
 
 H(e) == hist' = Append(hist, e)
 
@@ -45,15 +64,24 @@ Lats == {"none", "slow", "batched"}
 
 FetchStep ==
     \E out \in Outcomes :
-        /\ ConfigFetch(out)
+        /\ ConfigFetch(out) /\ UNCHANGED devVars
         /\ H([ev |-> "Fetch", out |-> out.t, doc |-> out.doc])
 
 RoundStep ==
     \E accts \in IF Matrix THEN {Validators} ELSE AcctSets :
       \E sf \in {S \in SUBSET WantedPairs(accts) : Cardinality(S) <= MaxSignFail},
-         rf \in SUBSET Relays, nf \in SUBSET Nodes, lat \in Lats :
+         rf \in SUBSET Relays, nf \in SUBSET Nodes, lat \in Lats \cup (IF Matrix THEN {} ELSE {"held"}) :
         /\ H([ev |-> "Round", accts |-> accts, signfail |-> sf, relayfail |-> rf, nodefail |-> nf, lat |-> lat])
+        /\ win' = IF lat = "held" THEN 1 + (Cardinality(rf) % 2) ELSE 0
         /\ UNCHANGED vars
+
+\* a REST forwarding call inside the window of a held round (the second lane of BlockRelay)
+Fwd2Step ==
+    \E regs \in {S \in SUBSET FwdCandidates : Cardinality(S) \in 1..2}, rf \in SUBSET Relays :
+        /\ H([ev |-> "Fwd2", regs |-> {<<x.v, x.fee, x.gas>> : x \in regs}, relayfail |-> rf, lat |-> "none"])
+        /\ UNCHANGED vars
+
+ReleaseStep == H([ev |-> "Release"]) /\ UNCHANGED vars
 
 PrepStep ==
     \E accts \in AcctSets, po \in [Nodes -> {"ok", "err", "notactive"}], lat \in {"none", "slow"} :
@@ -67,30 +95,66 @@ FwdStep ==
 
 \* TLC's simulator evaluates the invariants on every candidate successor: the closing step has a single
 \* successor, so that exactly the behaviours that were walked are printed
-EndStep == Len(hist) = ScenLen + 1 /\ H([ev |-> "End"]) /\ nk' = nk /\ UNCHANGED vars
+Ended == Len(hist) > 1 /\ hist[Len(hist)].ev = "End"
+EndStep == Len(hist) >= ScenLen + 1 /\ win = 0 /\ ~Ended /\ H([ev |-> "End"]) /\ nk' = nk /\ UNCHANGED <<vars, win>>
+
+\* ---- the scripted families (a whole history in one step; nothing of BlockRelay's state is needed) ----
+WantedOf(d, accts) ==
+    UNION {{<<v, t[2], t[3]>> : t \in Resolve(d, v).rel} : v \in {a \in accts : Resolve(d, a).ok}}
+Rnd(sf, rf, nf, lat) == [ev |-> "Round", accts |-> Validators, signfail |-> sf, relayfail |-> rf, nodefail |-> nf, lat |-> lat]
+Fet(k) == [ev |-> "Fetch", out |-> "good", doc |-> k]
+\* one registration of a validator Vouch holds (dropped once a round has run) and one of an external validator
+ScriptRegs == {<<1, 2, 2>>, <<3, 1, 1>>}
+
+AfterHist(k, sf, rf, nf, lat) ==
+    <<Fet(k), Rnd(sf, rf, nf, lat), Rnd({}, {}, {}, "none"),
+      [ev |-> "Fwd", regs |-> ScriptRegs, relayfail |-> {}, lat |-> "none"], Rnd({}, {}, {}, "slow")>>
+
+WindowHist(k, k2, rf, rf2, fwdFirst) ==
+    LET f2 == [ev |-> "Fwd2", regs |-> ScriptRegs, relayfail |-> rf2, lat |-> "none"] IN
+    <<Fet(k), Rnd({}, rf, {}, "held")>>
+    \o (IF fwdFirst THEN <<f2, Fet(k2)>> ELSE <<Fet(k2), f2>>)
+    \o <<[ev |-> "Release"], Rnd({}, {}, {}, "none")>>
+
+ScriptStep ==
+    /\ Len(hist) = 1
+    /\ \/ /\ Script = "after"
+          /\ \E k \in DocIds, rf \in SUBSET Relays, nf \in SUBSET Nodes, lat \in Lats :
+               \E sf \in {S \in SUBSET WantedOf(k, Validators) : Cardinality(S) <= MaxSignFail} :
+                  hist' = hist \o AfterHist(k, sf, rf, nf, lat)
+       \/ /\ Script = "window"
+          /\ \E k \in DocIds, k2 \in DocIds, rf \in SUBSET Relays, rf2 \in {{}, {2}}, fwdFirst \in BOOLEAN :
+                  hist' = hist \o WindowHist(k, k2, rf, rf2, fwdFirst)
+    /\ UNCHANGED <<vars, nk, win>>
 
 SNext ==
   \/ EndStep
+  \/ Script # "none" /\ ScriptStep
   \/
-    /\ Len(hist) <= ScenLen
+    /\ Script = "none"
+    /\ Len(hist) <= ScenLen \/ win # 0
+    /\ ~Ended
     /\ IF History
-       THEN /\ \/ Len(hist) % 2 = 1 /\ (\E k \in DocIds : ConfigFetch([t |-> "good", doc |-> k])
+       THEN /\ \/ Len(hist) % 2 = 1 /\ (\E k \in DocIds : ConfigFetch([t |-> "good", doc |-> k]) /\ UNCHANGED devVars
                                                          /\ H([ev |-> "Fetch", out |-> "good", doc |-> k]))
                \/ Len(hist) % 2 = 0 /\ H([ev |-> "Round", accts |-> Validators, signfail |-> {}, relayfail |-> {}, nodefail |-> {}, lat |-> "none"])
                                       /\ UNCHANGED vars
-            /\ nk' = nk
+            /\ nk' = nk /\ win' = 0
        ELSE IF Matrix
-       THEN /\ \/ Len(hist) = 1 /\ (\E k \in DocIds : ConfigFetch([t |-> "good", doc |-> k])
-                                                     /\ H([ev |-> "Fetch", out |-> "good", doc |-> k]))
+       THEN /\ \/ Len(hist) = 1 /\ (\E k \in DocIds : ConfigFetch([t |-> "good", doc |-> k]) /\ UNCHANGED devVars
+                                                     /\ H([ev |-> "Fetch", out |-> "good", doc |-> k])) /\ win' = 0
                \/ Len(hist) = 2 /\ RoundStep
             /\ nk' = nk
-       ELSE /\ \/ KindOf(nk) = "Fetch" /\ FetchStep
-               \/ KindOf(nk) = "Round" /\ RoundStep
-               \/ KindOf(nk) = "Prep" /\ PrepStep
-               \/ KindOf(nk) = "Fwd" /\ FwdStep
+       ELSE /\ \/ win = 0 /\ KindOf(nk) = "Fetch" /\ FetchStep /\ win' = 0
+               \/ win = 0 /\ KindOf(nk) = "Round" /\ RoundStep
+               \/ win = 0 /\ KindOf(nk) = "Prep" /\ PrepStep /\ win' = 0
+               \/ win = 0 /\ KindOf(nk) = "Fwd" /\ FwdStep /\ win' = 0
+               \* inside the window of a held round: a fetch or a REST forwarding call, then the release
+               \/ win > 0 /\ (FetchStep \/ Fwd2Step) /\ win' = IF win = 1 THEN -1 ELSE win - 1
+               \/ win = -1 /\ ReleaseStep /\ win' = 0
             /\ nk' \in 1..9
 
 SSpec == SInit /\ [][SNext]_svars
 
-Emit == (Len(hist) = ScenLen + 2) => PrintT(ToJson(SubSeq(hist, 1, ScenLen + 1)))
+Emit == Ended => PrintT(ToJson(SubSeq(hist, 1, Len(hist) - 1)))
 =============================================================================
